@@ -101,6 +101,7 @@ def check(ctx: Ctx) -> str:
     s = ast.unparse(ft)
     for frag, what in (("pass_arg is _PassArg.context", "context filters are never folded"), ("eval_ctx.environment.is_async", "async variants are not folded in async mode"), ("jinja_async_variant", "async variants are recognised")):
         ctx.check(frag in s, f"filter-fold:{what}", "nodes:_FilterTestCommon.as_const", what, f"_FilterTestCommon.as_const lost the rule: {what}", f"src/jinja2/nodes.py:{ft.lineno}")
+    async_fold_rule(ctx, ft)
     ins = [c for c in astq.calls(ft) if astq.callee(c) == "args.insert"]
     want = {"eval_ctx": "pass_arg is _PassArg.eval_context", "eval_ctx.environment": "pass_arg is _PassArg.environment"}
     for c in ins:
@@ -138,6 +139,31 @@ def check(ctx: Ctx) -> str:
     r3_safe_repr(ctx)
     visitor_forwarding_rule(ctx, "R4")
     return __doc__ or ""
+
+
+def async_fold_rule(ctx: Ctx, ft: ast.AST | None = None) -> None:
+    """In async mode a filter *or test* that is a coroutine function (or an async_variant
+    wrapper) must not be called by the optimizer: the call only creates a coroutine, which is
+    then written into the template as a constant and never awaited."""
+    if ft is None:
+        ft = as_const_classes(ctx)["_FilterTestCommon"]
+    rs = [r for r in astq.raises(ft) if astq.raise_type(r).endswith("Impossible")]
+    hits = []
+    for r in rs:
+        gs = [(ast.unparse(g), pol) for g, pol in guards_of(r)]
+        if len(gs) == 1 and gs[0][1] and "is_async" in gs[0][0]:
+            hits.append(gs[0][0])
+    want_atoms = ("eval_ctx.environment.is_async", "jinja_async_variant", "iscoroutinefunction(func)")
+    ok = len(hits) == 1 and all(a in hits[0] for a in want_atoms)
+    if ok:
+        # no further conjunct may narrow the refusal (e.g. `self._is_filter and ...`)
+        test = next(g for r in rs for g, pol in guards_of(r) if "is_async" in ast.unparse(g))
+        conj = test.values if isinstance(test, ast.BoolOp) and isinstance(test.op, ast.And) else [test]
+        extra = [ast.unparse(c) for c in conj if not any(a in ast.unparse(c) for a in want_atoms)]
+        ok = not extra and len(conj) == 2
+    ctx.check(ok, "filter-fold:async-refusal", "nodes:_FilterTestCommon.as_const", f"async refusal guarded by {hits}",
+              f"_FilterTestCommon.as_const must `raise Impossible()` under exactly `eval_ctx.environment.is_async and (jinja_async_variant or iscoroutinefunction(func))` - for filters and tests alike; found {hits}: a coroutine test / filter on constant operands is called at compile time, its coroutine is never awaited (RuntimeWarning) and its repr is folded into the template",
+              f"src/jinja2/nodes.py:{ft.lineno}")  # type: ignore[attr-defined]
 
 
 # reviewed calls that deliberately do not forward: (module, class, method, call text) -> reason
